@@ -23,7 +23,11 @@ def parseObs (kv : List (String × String)) : Option Obs := do
 def parseProcObs (kv : List (String × String)) : Option ProcObs := do
   pure { rc := getS kv "rc", total := ← getN? kv "total", fired := ← getN? kv "fired", disc := ← getN? kv "disc",
          bad := ← getN? kv "bad", served := ← getN? kv "served", minDisc := ← getN? kv "mindisc",
-         recv := ← getN? kv "recv", errs := ← getN? kv "errs" }
+         recv := ← getN? kv "recv", errs := ← getN? kv "errs",
+         pools := ← (splitList (getS kv "pp") ",").mapM fun q =>
+           match q.splitOn ":" with
+           | [f, d, b] => do pure (← f.toNat?, ← d.toNat?, ← b.toNat?)
+           | _ => none }
 
 /-- duration of `once:N` / `const:OPS:MS` / `line:FROM:TO:MS` / `step:FROM:TO:STEP:MS` (MS per step) joined by `+`, ns -/
 def profDur (p : String) : Option Int :=
@@ -31,6 +35,7 @@ def profDur (p : String) : Option Int :=
     match seg.splitOn ":" with
     | ["once", _] => some acc
     | ["const", _, ms] => (ms.toInt?).map (fun m => acc + m * 1000000)
+    | ["pause", ms] => (ms.toInt?).map (fun m => acc + m * 1000000)
     | ["line", _, _, ms] => (ms.toInt?).map (fun m => acc + m * 1000000)
     | ["step", f, t, st, ms] => do
         let f ← f.toInt?; let t ← t.toInt?; let st ← st.toInt?; let m ← ms.toInt?
@@ -90,7 +95,8 @@ def renderSeqs (ss : List (List Entry)) : String :=
   "|".intercalate (ss.map fun s => ",".intercalate (s.map fun e => s!"{e.tok}:{e.pick}:{e.ret}:{e.dec}"))
 
 def handleProc (kv : List (String × String)) (impl : String) : String × String :=
-  let given : Option (Option Bool) := match getS kv "given" with
+  let given : Option (List (Option Bool)) := ((getS kv "given").splitOn ",").mapM fun g =>
+    match g with
     | "none" => some none
     | "true" => some (some true)
     | "false" => some (some false)
